@@ -146,3 +146,11 @@ by rewrite perm_sym; exact: perm_trans pw pv.
 Qed.
 
 End EndToEnd.
+
+(* Dens unfolded: same length, item i denotes root i *)
+Lemma Dens_nth (R : rcfType) (x0 : anum) (s : seq anum) (vs : seq R) : Dens s vs ->
+  size s = size vs /\ forall i, (i < size s)%N -> Den (nth x0 s i) (nth 0 vs i).
+Proof.
+elim: s vs => [|x s IH] [|v vs] //= [dx /IH [-> H]]; split=> // -[|i] //=.
+by rewrite ltnS; exact: H.
+Qed.
